@@ -64,6 +64,12 @@ func (tx *Tx) check(cfg checkConfig, ch chan error) {
 			reachable[tx.meta.Freelist()+common.Pgid(i)] = tx.page(tx.meta.Freelist())
 		}
 	}
+	// The meta pages and the pages holding the free list are in use: none of them may be listed as free.
+	for id := common.Pgid(0); id < tx.meta.Pgid(); id++ {
+		if _, ok := reachable[id]; ok && freed[id] {
+			ch <- fmt.Errorf("page %d: reachable freed", int(id))
+		}
+	}
 
 	if cfg.pageId == 0 {
 		// Check the whole db file, starting from the root bucket and
